@@ -8,37 +8,70 @@ theorem foldl_inv' {α β : Type} (P : α → Prop) (f : α → β → α) (h : 
   | nil => intro a ha; exact ha
   | cons x xs ih => intro a ha; exact ih _ (h a x ha)
 
-theorem setIface_frame (t : RT) (n : String) (i : Option Iface) :
-    (t.setIface n i).wants = t.wants ∧ (t.setIface n i).defProto = t.defProto ∧ (t.setIface n i).pol = t.pol ∧
-    (t.setIface n i).dp = t.dp ∧ (t.setIface n i).fullResync = t.fullResync := by
-  unfold RT.setIface; split <;> exact ⟨rfl, rfl, rfl, rfl, rfl⟩
-
 def FrameRT (t a : RT) : Prop :=
   a.wants = t.wants ∧ a.defProto = t.defProto ∧ a.pol = t.pol ∧ a.dp = t.dp ∧ a.fullResync = t.fullResync
 
-theorem FrameRT.setIface {t a : RT} (h : FrameRT t a) (n : String) (i : Option Iface) : FrameRT t (a.setIface n i) := by
-  obtain ⟨f1, f2, f3, f4, f5⟩ := setIface_frame a n i
-  exact ⟨f1.trans h.1, f2.trans h.2.1, f3.trans h.2.2.1, f4.trans h.2.2.2.1, f5.trans h.2.2.2.2⟩
+theorem FrameRT.refl (t : RT) : FrameRT t t := ⟨rfl, rfl, rfl, rfl, rfl⟩
+theorem FrameRT.trans {a b c : RT} (h1 : FrameRT a b) (h2 : FrameRT b c) : FrameRT a c :=
+  ⟨h2.1.trans h1.1, h2.2.1.trans h1.2.1, h2.2.2.1.trans h1.2.2.1, h2.2.2.2.1.trans h1.2.2.2.1, h2.2.2.2.2.trans h1.2.2.2.2⟩
+
+theorem recalc_frame (t : RT) (c : String) : FrameRT t (t.recalc c) := ⟨rfl, rfl, rfl, rfl, rfl⟩
+
+theorem recheck_frame (t : RT) (name : String) : FrameRT t (t.recheck name) := by
+  unfold RT.recheck
+  exact foldl_inv' (FrameRT t) _ (fun a c ha => ha.trans (recalc_frame a c)) _ t (FrameRT.refl t)
+
+theorem onIface_frame (t : RT) (n : String) (i : Nat) (st : Option Bool) : FrameRT t (t.onIface n i st) := by
+  unfold RT.onIface
+  cases st with
+  | none => exact FrameRT.trans ⟨rfl, rfl, rfl, rfl, rfl⟩ (recheck_frame _ n)
+  | some up => exact FrameRT.trans ⟨rfl, rfl, rfl, rfl, rfl⟩ (recheck_frame _ n)
+
+theorem FrameRT.onIface {t a : RT} (h : FrameRT t a) (n : String) (i : Nat) (st : Option Bool) : FrameRT t (a.onIface n i st) :=
+  h.trans (onIface_frame a n i st)
+
+theorem dropRenumbered_frame (t : RT) (n : String) (idx : Nat) : FrameRT t (t.dropRenumbered n idx) := by
+  unfold RT.dropRenumbered
+  split
+  · split
+    · exact onIface_frame _ _ _ _
+    · exact FrameRT.refl t
+  · exact FrameRT.refl t
+
+theorem dropRenamed_frame (t : RT) (n : String) (idx : Nat) : FrameRT t (t.dropRenamed n idx) := by
+  unfold RT.dropRenamed
+  split
+  · split
+    · exact onIface_frame _ _ _ _
+    · exact FrameRT.refl t
+  · exact FrameRT.refl t
+
+theorem refreshPass1_frame (kif : Map Iface) (t : RT) (n : String) : FrameRT t (t.refreshPass1 kif n) := by
+  unfold RT.refreshPass1
+  split
+  · exact FrameRT.refl t
+  · exact (dropRenumbered_frame t n _).trans (dropRenamed_frame _ n _)
+
+theorem refreshPass2_frame (kif : Map Iface) (t : RT) (n : String) : FrameRT t (t.refreshPass2 kif n) := by
+  unfold RT.refreshPass2
+  split
+  · exact FrameRT.refl t
+  · split
+    · exact FrameRT.refl t
+    · exact onIface_frame _ _ _ _
 
 theorem refreshAll_frame (t : RT) (kif : Map Iface) : FrameRT t (t.refreshAll kif) := by
   unfold RT.refreshAll
   dsimp only
-  have h1 : FrameRT t ((sortS kif.keys.eraseDups).foldl (fun t n =>
-      match kif.get n with
-      | some ki => if t.ifaces.get n == some ki then t else t.setIface n (some ki)
-      | none => t) t) := by
-    apply foldl_inv' (FrameRT t) _ _ _ t ⟨rfl, rfl, rfl, rfl, rfl⟩
-    intro a n ha
-    split
-    · split
-      · exact ha
-      · exact ha.setIface n _
-    · exact ha
-  apply foldl_inv' (FrameRT t) _ _ _ _ h1
+  have h1 : FrameRT t ((sortS kif.keys.eraseDups).foldl (RT.refreshPass1 kif) t) :=
+    foldl_inv' (FrameRT t) _ (fun a n ha => ha.trans (refreshPass1_frame kif a n)) _ t (FrameRT.refl t)
+  have h2 := foldl_inv' (FrameRT t) (RT.refreshPass2 kif) (fun a n ha => ha.trans (refreshPass2_frame kif a n))
+    (sortS kif.keys.eraseDups) _ h1
+  apply foldl_inv' (FrameRT t) _ _ _ _ h2
   intro a n ha
   split
   · exact ha
-  · exact ha.setIface n none
+  · exact ha.onIface n 0 none
 
 /-- The table state after a successful full resync. -/
 def RT.afterFull (t : RT) (K : Kernel) : RT :=
